@@ -29,6 +29,8 @@ ENUM_WORDS = ["Color", "Status", "Kind", "Level", "Mode", "Phase", "Shape", "Siz
 PROP_WORDS = ["name", "count", "note", "when", "ident", "flag", "ratio", "code", "label", "weight", "alpha", "beta", "gamma", "delta"]
 TAGS = ["pets", "store", "admin", "reports"]
 
+MEDIA = ["application/json", "multipart/form-data", "application/x-www-form-urlencoded"]
+
 LEAVES = [{"type": "string"}, {"type": "integer"}, {"type": "number"}, {"type": "boolean"}, {"type": "string", "format": "date"},
           {"type": "string", "format": "date-time"}, {"type": "string", "format": "uuid"}]
 
@@ -161,29 +163,38 @@ def gen_document(rng: random.Random, n_schemas=None, n_ops=None, version=None, p
 
     # ---- operations
     paths = {}
-    used_ids = set()
-    for oi in range(n_ops):
-        verb = rng.choice(["get", "post", "put", "delete"])
-        target = rng.choice(models)
-        oid = f"{verb}{target}{oi}"
-        path = f"/{target.lower()}s{oi}"
-        op = {"operationId": oid, "tags": [rng.choice(TAGS)], "responses": {}}
-        params = []
+    op_no = [0]
+
+    def inline_body(tag):
+        """an inline object schema: the generator mints its class name from the operation (and, with several media types, the body kind)"""
+        props = {f"{tag}_text": {"type": "string"}}
         if rng.random() < 0.5:
-            path += "/{ident}"
-            params.append({"name": "ident", "in": "path", "required": True, "schema": {"type": "string"}})
-        if rng.random() < 0.6:
-            params.append({"name": "kind", "in": "query", "required": rng.random() < 0.5, "schema": _ref(rng.choice(enums))})
+            props[f"{tag}_ref"] = _ref(rng.choice(models))
+        if rng.random() < 0.4:
+            props[f"{tag}_enum"] = _ref(rng.choice(enums))
         if rng.random() < 0.3:
-            params.append({"name": "limit", "in": "query", "schema": {"type": "integer"}})
-        if rng.random() < 0.2:
-            params.append({"name": "X-Trace", "in": "header", "schema": {"type": "string"}})
+            props[f"{tag}_num"] = {"type": "integer"}
+        return {"type": "object", "properties": props, "required": [f"{tag}_text"]}
+
+    def body_schema(model_pool, tag):
+        if rng.random() < 0.7:
+            return _ref(rng.choice(model_pool))
+        feats.add("inline-body")
+        return inline_body(tag)
+
+    def add_op(verb, path, target, content=None, resp=None, oid=None, params=None):
+        oi = op_no[0]
+        op_no[0] += 1
+        oid = oid or f"{verb}{target}{oi}"
+        op = {"operationId": oid, "tags": [rng.choice(TAGS)], "responses": {}}
         if params:
             op["parameters"] = params
-        if verb in ("post", "put"):
-            op["requestBody"] = {"required": True, "content": {"application/json": {"schema": _ref(rng.choice(models))}}}
+        if content:
+            op["requestBody"] = {"required": True, "content": content}
         r = rng.random()
-        if r < 0.4:
+        if resp is not None:
+            ok = resp
+        elif r < 0.4:
             ok = _ref(target)
         elif r < 0.7:
             ok = {"type": "array", "items": _ref(target)}
@@ -196,7 +207,68 @@ def gen_document(rng: random.Random, n_schemas=None, n_ops=None, version=None, p
             feats.add("two-responses")
         if rng.random() < 0.2:
             op["responses"]["204"] = {"description": "empty"}
-        paths.setdefault(path, {})[verb] = op
+        item = paths.setdefault(path, {})
+        if verb in item:
+            verb = next(v for v in ["post", "put", "patch", "delete", "get"] if v not in item)
+            if content is None and verb in ("post", "put", "patch"):
+                pass
+        item[verb] = op
+        if len(item) > 1:
+            feats.add("several-ops-per-path")
+        return op
+
+    for _ in range(n_ops):
+        verb = rng.choice(["get", "post", "put", "delete"])
+        target = rng.choice(models)
+        oi = op_no[0]
+        if paths and rng.random() < 0.35:
+            path = rng.choice(list(paths))           # a second/third operation on an existing path
+            params = [dict(p) for p in next(iter(paths[path].values())).get("parameters", []) if p["in"] == "path"]
+        else:
+            path = f"/{target.lower()}s{oi}"
+            params = []
+            if rng.random() < 0.5:
+                path += "/{ident}"
+                params.append({"name": "ident", "in": "path", "required": True, "schema": {"type": "string"}})
+        if rng.random() < 0.6:
+            params.append({"name": "kind", "in": "query", "required": rng.random() < 0.5, "schema": _ref(rng.choice(enums))})
+        if rng.random() < 0.3:
+            params.append({"name": "limit", "in": "query", "schema": {"type": "integer"}})
+        if rng.random() < 0.2:
+            params.append({"name": "X-Trace", "in": "header", "schema": {"type": "string"}})
+        content = None
+        if verb in ("post", "put"):
+            media = rng.choice(MEDIA)
+            content = {media: {"schema": body_schema(models, f"b{oi}")}}
+            feats.add("body-" + media.split("/")[-1])
+        add_op(verb, path, target, content=content, params=params)
+
+    # one component model used as request body by several operations under DIFFERENT media types (and as a response):
+    # whatever a body use does to the shared class must not depend on which operation is parsed last
+    if rng.random() < 0.85:
+        shared = rng.choice(models)
+        medias = rng.sample(MEDIA, rng.randint(2, 3))
+        base = f"/shared{shared.lower()}"
+        for j, media in enumerate(medias):
+            same_path = j == 2 or (j == 1 and rng.random() < 0.3)
+            add_op("post", base + ("a" if same_path else f"{'ab'[j % 2]}{j}"), shared, content={media: {"schema": _ref(shared)}},
+                   resp=(_ref(shared) if rng.random() < 0.5 else None), oid=f"share{shared}{media.split('/')[-1].replace('-', '').replace('x', 'X')[:6]}{j}")
+        feats.add("shared-body-media")
+        feats.add("body-and-response")
+    # one operation whose request body offers several media types: refs and inline schemas (names minted per body kind)
+    if rng.random() < 0.6:
+        target = rng.choice(models)
+        medias = rng.sample(MEDIA, rng.randint(2, 3))
+        content = {}
+        for media in medias:
+            content[media] = {"schema": body_schema(models, "mm" + media.split("/")[-1][:4].replace("-", ""))}
+        add_op("post", f"/multi{target.lower()}", target, content=content, oid=f"multi{target}")
+        feats.add("multi-media-body")
+    if pressure:
+        # name pressure between operations: `crowd` with two media types mints CrowdJsonBody for its JSON body, `crowd_json` with one mints CrowdJsonBody too
+        add_op("post", "/crowd", models[0], content={"application/json": {"schema": inline_body("cj")}, "multipart/form-data": {"schema": inline_body("cf")}}, oid="crowd")
+        add_op("post", "/crowdjson", models[0], content={"application/json": {"schema": inline_body("cj2")}}, oid="crowd_json")
+        feats.add("op-name-pressure")
     doc = {"openapi": version, "info": {"title": "Gen API", "version": "1.0"}, "paths": paths, "components": {"schemas": schemas}}
     return doc, sorted(feats)
 
@@ -214,14 +286,26 @@ def _shuffled(d: dict, rng: random.Random) -> dict:
 
 
 def permute(doc: dict, rng: random.Random, mode="random") -> dict:
-    """Same document, different insertion order of components.schemas / paths (mode: random | reversed)."""
+    """Same document, different insertion order of components.schemas, of paths and of the operations inside each path item
+    (mode: random | reversed).  mode="media": ONLY the media types inside every requestBody are re-ordered (that order is
+    significant for the endpoint module by design - the dispatch order of the body types - and for nothing else)."""
     d = copy.deepcopy(doc)
+    if mode == "media":
+        for item in d.get("paths", {}).values():
+            for op in item.values():
+                c = isinstance(op, dict) and op.get("requestBody", {}).get("content")
+                if isinstance(c, dict) and len(c) > 1:
+                    ks = list(c)
+                    ks = ks[1:] + ks[:1] if len(ks) == 2 or rng.random() < 0.5 else list(reversed(ks))
+                    op["requestBody"]["content"] = {k: c[k] for k in ks}
+        return d
     sch = d.get("components", {}).get("schemas")
     if isinstance(sch, dict):
         d["components"]["schemas"] = {k: sch[k] for k in reversed(list(sch))} if mode == "reversed" else _shuffled(sch, rng)
     if isinstance(d.get("paths"), dict):
         p = d["paths"]
-        d["paths"] = {k: p[k] for k in reversed(list(p))} if mode == "reversed" else _shuffled(p, rng)
+        p = {k: p[k] for k in reversed(list(p))} if mode == "reversed" else _shuffled(p, rng)
+        d["paths"] = {k: ({m: v[m] for m in reversed(list(v))} if mode == "reversed" else _shuffled(v, rng)) for k, v in p.items()}
     return d
 
 
@@ -252,6 +336,29 @@ def corpus():
     out.append(("case-tie", {"openapi": "3.1.0", "info": {"title": "t", "version": "1"}, "paths": {}, "components": {"schemas": {
         "AB": {"type": "string", "enum": ["a", "b"]}, "Ab": {"type": "string", "enum": ["c", "d"]},
         "M": o(p=_ref("AB"), q=_ref("Ab"))}}}))
+    # the class of change "a body use re-registers the shared class": S is a multipart body in /a, a JSON body in /b, a form body of a second
+    # operation on /a, a response, and one of three media types of /c; T is shared the other way round
+    R200 = lambda sch: {"200": {"description": "ok", "content": {"application/json": {"schema": sch}}}}
+    out.append(("shared-body-media", {"openapi": "3.1.0", "info": {"title": "t", "version": "1"},
+        "paths": {
+            "/a": {"post": {"operationId": "upload", "tags": ["x"], "requestBody": {"content": {"multipart/form-data": {"schema": _ref("S")}}}, "responses": R200(_ref("S"))},
+                   "put": {"operationId": "formit", "tags": ["x"], "requestBody": {"content": {"application/x-www-form-urlencoded": {"schema": _ref("S")}}}, "responses": R200(_ref("T"))}},
+            "/b": {"post": {"operationId": "store", "tags": ["y"], "requestBody": {"content": {"application/json": {"schema": _ref("S")}}}, "responses": R200({"type": "array", "items": _ref("S")})},
+                   "put": {"operationId": "storeT", "tags": ["y"], "requestBody": {"content": {"multipart/form-data": {"schema": _ref("T")}}}, "responses": R200(_ref("T"))}},
+            "/c": {"post": {"operationId": "multi", "tags": ["y"], "requestBody": {"content": {
+                "application/json": {"schema": _ref("T")},
+                "multipart/form-data": {"schema": o(f={"type": "string", "format": "binary"}, m=_ref("T"))},
+                "application/x-www-form-urlencoded": {"schema": o(q={"type": "integer"})}}}, "responses": R200(_ref("S"))}},
+            "/d": {"post": {"operationId": "inl", "tags": ["x"], "requestBody": {"content": {"application/json": {"schema": o(w={"type": "string"}, s=_ref("S"))}}}, "responses": R200(_ref("T"))}}},
+        "components": {"schemas": {"S": o(a={"type": "string"}, t=_ref("T"), u={"anyOf": [_ref("T"), {"type": "integer"}]}), "T": o(b={"type": "integer"}, k=_ref("Kind")),
+                                   "Kind": {"type": "string", "enum": ["a", "b"]}}}}))
+    # name pressure between operations: `crowd` (two media types) and `crowd_json` (one) both mint CrowdJsonBody (a diagnostic in the unchanged generator)
+    out.append(("op-name-pressure", {"openapi": "3.1.0", "info": {"title": "t", "version": "1"},
+        "paths": {
+            "/crowd": {"post": {"operationId": "crowd", "tags": ["x"], "requestBody": {"content": {"application/json": {"schema": o(a={"type": "string"})},
+                                                                                                  "multipart/form-data": {"schema": o(b={"type": "string"})}}}, "responses": R200({"type": "string"})}},
+            "/crowdjson": {"post": {"operationId": "crowd_json", "tags": ["x"], "requestBody": {"content": {"application/json": {"schema": o(c={"type": "integer"})}}}, "responses": R200({"type": "string"})}}},
+        "components": {"schemas": {"Z": o(z={"type": "string"})}}}))
     # name pressure: the inline objects Parent.child_item and ParentChild.item both mint the class name ParentChildItem (a diagnostic in the
     # unchanged generator; a conflict resolution that silently depends on arrival order makes this document diagnostic-free and order dependent)
     out.append(("name-pressure", {"openapi": "3.1.0", "info": {"title": "t", "version": "1"}, "paths": {}, "components": {"schemas": {
